@@ -80,7 +80,7 @@ def run_pair(c, named=None):
     return {"oa": outs[0].tolist(), "ob": outs[1].tolist()}
 
 
-ROUTES = ["from_state", "from_state+reset", "reset_to_state", "with_state", "with_state+reset", "call", "call+reset",
+ROUTES = ["from_state", "from_state+reset", "resume", "reset_to_state", "with_state", "with_state+reset", "call", "call+reset",
           "model_call+reset", "model_call"]
 
 
@@ -91,6 +91,14 @@ def start_and_run(node, a, X, route):
         return node.run(X, from_state=a)
     if route == "from_state+reset":            # 'start from a' given together with reset=True: the explicit state wins
         return node.run(X, from_state=a, reset=True)
+    if route == "resume":
+        # two chunks, the second resumed from the LAST ROW of the first result, handed over as it is (a view into that array)
+        k = max(1, len(X) // 2)
+        S1 = node.run(X[:k], from_state=a)
+        if k >= len(X):
+            return S1
+        S2 = node.run(X[k:], from_state=S1[-1])
+        return np.vstack([S1, S2])
     if route == "reset_to_state":
         node.reset(to_state=a)
         return node.run(X)
